@@ -849,6 +849,11 @@ class Emitter:
             self.cur['externs'].add('AVM_FOP')
             ea = self.E(a)
             return '(%s = (%s)AVM_%s_%s((%s)%s, (%s)%s))' % (ea, lt, {'*=': 'FMUL', '/=': 'FDIV', '+=': 'FADD', '-=': 'FSUB'}[op], 'f32' if crt == 'float' else 'f64', crt, ea, crt, self.E(b))
+        if op == '*=' and (self.ctype(ct) if ct else lt) in DIVT and not self.int_literal(b, allow_zero=True):
+            crt = self.ctype(ct) if ct else lt
+            self.cur['externs'].add('AVM_MUL')
+            ea = self.E(a)
+            return '(%s = (%s)AVM_MUL_%s((%s)%s, (%s)%s))' % (ea, lt, DIVT[crt], crt, ea, crt, self.E(b))
         if op in ('/=', '%=') and (self.ctype(ct) if ct else lt) in DIVT and not self.int_literal(b):
             crt = self.ctype(ct) if ct else lt
             self.cur['externs'].add('AVM_DIV')
